@@ -64,7 +64,7 @@ def all_forests(n):
 
 
 def family(sym, n, ngo=1, auxes=(), guards=True, done_need=False, aux_frames=2, far_any=True,
-           parent=None, first=None, near_in_cur=False, host_in_cur=False, force_same=False):
+           parent=None, first=None, near_in_cur=False, host_in_cur=False, force_same=False, cond_second_host=False):
     """Draw one program.  auxes: sequence of ('plain'|'cond') kinds; each gets its own aux framer
     a<k> attached to a symbolically chosen frame; with two plain auxes a selector may attach the
     SAME original to two frames.  Returns (prog, info)."""
@@ -96,6 +96,11 @@ def family(sym, n, ngo=1, auxes=(), guards=True, done_need=False, aux_frames=2, 
         else:
             frames[host].items.append(("caux", name, [("c_" + name, ">=", 1)]))
             shares.append("c_" + name)
+            if cond_second_host:     # the same conditional auxiliary named by a second frame
+                h2 = sym.choice("host2_%d" % k, n)
+                sym.assume(h2 != host)
+                frames[h2].items.append(("caux", name, [("c_" + name, ">=", 1)]))
+                info["host2"] = h2
         info["aux"].append((name, kind, host))
     for j in range(ngo):
         if near_in_cur and j == 0:
